@@ -178,6 +178,7 @@ Proof.
                       | a :: b :: r2 =>
                         let size := Z.lor (Z.shiftl a 8) b in
                         if zlen r2 <? size then Err EShort else
+                        if negb (agg_clean (S (length r2)) d (drop size r2)) then Err EShort else
                         let others := agg_others (S (length r2)) d (drop size r2) [] in
                         match others with [] => Err EShort | _ => Ok (PAgg fd (take size r2) others) end
                       | _ => Err EShort
@@ -195,6 +196,7 @@ Proof.
     rewrite zlen_app. pose proof (zlen_nonneg (take (j - 1 - 1 - zlen first) (agg_unit d (dd, u) ++ more))).
     kill_if (zlen first + zlen (take (j - 1 - 1 - zlen first) (agg_unit d (dd, u) ++ more)) <? zlen first) false.
     rewrite drop_app_exact.
+    match goal with |- context [negb ?c] => destruct c end; cbn [negb]; [|eexists; reflexivity].
     rewrite (agg_others_prefix d dd u more _ (j - 1 - 1 - zlen first) Hdd Hu ltac:(lia)).
     eexists; reflexivity. }
   cbn [app]. rewrite !take_cons by lia.
@@ -215,6 +217,137 @@ Proof.
   - apply Hwalk. lia.
 Qed.
 
+(* ---- D34: a cut inside a LATER aggregation unit is refused too ---- *)
+
+(* one complete unit is stepped over *)
+Lemma agg_clean_step d dd u X fuel : 0 <= dd < 256 -> zlen u < 65536 ->
+  agg_clean (S fuel) d (agg_unit d (dd, u) ++ X) = agg_clean fuel d X.
+Proof.
+  intros Hd Hu. pose proof (zlen_nonneg u) as Hu0.
+  destruct (put16_split (zlen u) ltac:(lia)) as (a & b & Hab & Habv).
+  unfold agg_unit. cbn [fst snd]. rewrite Hab.
+  destruct d; cbn [app agg_clean]; unfold be16; rewrite Habv, zlen_app; pose proof (zlen_nonneg X);
+    kill_if (zlen u + zlen X <? zlen u) false; rewrite drop_app_exact; reflexivity.
+Qed.
+
+(* a non-empty strict prefix of one unit is not a clean end *)
+Lemma agg_clean_inside d dd u more fuel j : 0 <= dd < 256 -> zlen u < 65536 -> 0 < j < zlen (agg_unit d (dd, u)) ->
+  agg_clean fuel d (take j (agg_unit d (dd, u) ++ more)) = false.
+Proof.
+  intros Hd Hu Hj. destruct fuel as [|f]; [reflexivity|].
+  pose proof (zlen_nonneg u) as Hu0.
+  destruct (put16_split (zlen u) ltac:(lia)) as (a & b & Hab & Habv).
+  unfold agg_unit in *. cbn [fst snd] in *. rewrite Hab in *.
+  destruct d; cbn [app] in *; rewrite ?zlen_cons, ?zlen_app in Hj.
+  - rewrite take_cons by lia. cbn [agg_clean].
+    destruct (Z_le_gt_dec j 2) as [Hj2|Hj2].
+    { destruct (Z.eq_dec j 1) as [->|]; [change (1 - 1) with 0; rewrite take_0; reflexivity|].
+      assert (j = 2) by lia. subst j. change (2 - 1) with 1. rewrite take_cons by lia. change (1 - 1) with 0.
+      rewrite take_0. reflexivity. }
+    rewrite !take_cons by lia. unfold be16. rewrite Habv.
+    set (l2 := take (j - 1 - 1 - 1) (u ++ more)).
+    assert (zlen l2 < zlen u) by (subst l2; rewrite zlen_take_min by lia; lia).
+    kill_if (zlen l2 <? zlen u) true. reflexivity.
+  - destruct (Z_le_gt_dec j 1) as [Hj1|Hj1].
+    { assert (j = 1) by lia. subst j. rewrite take_cons by lia. change (1 - 1) with 0. rewrite take_0. reflexivity. }
+    rewrite !take_cons by lia. cbn [agg_clean]. unfold be16. rewrite Habv.
+    set (l2 := take (j - 1 - 1) (u ++ more)).
+    assert (zlen l2 < zlen u) by (subst l2; rewrite zlen_take_min by lia; lia).
+    kill_if (zlen l2 <? zlen u) true. reflexivity.
+Qed.
+
+Definition units_ok (others : list (Z * list Z)) : Prop :=
+  Forall (fun x => 0 <= fst x < 256 /\ zlen (snd x) < 65536) others.
+
+(* a prefix of a run of units on which the strict walk ends cleanly ends at a unit boundary *)
+Lemma agg_clean_prefix d : forall others fuel j, units_ok others ->
+  0 <= j <= zlen (concat (map (agg_unit d) others)) ->
+  (length (take j (concat (map (agg_unit d) others))) < fuel)%nat ->
+  agg_clean fuel d (take j (concat (map (agg_unit d) others))) = true ->
+  exists m, j = zlen (concat (map (agg_unit d) (firstn m others))).
+Proof.
+  induction others as [|[dd u] t IH]; intros fuel j Hall Hj Hf Hc.
+  - exists O. cbn [firstn map concat] in *. change (zlen (@nil Z)) with 0 in *. lia.
+  - apply Forall_cons_iff in Hall as [[Hd Hu] Ht]. cbn [fst snd] in Hd, Hu.
+    cbn [map concat] in *. rewrite zlen_app in Hj.
+    pose proof (zlen_nonneg (agg_unit d (dd, u))) as Hau.
+    destruct (Z.eq_dec j 0) as [->|Hj0]; [exists O; reflexivity|].
+    destruct (Z_lt_ge_dec j (zlen (agg_unit d (dd, u)))) as [Hin|Hout].
+    { rewrite (agg_clean_inside d dd u _ fuel j Hd Hu ltac:(lia)) in Hc. discriminate. }
+    rewrite take_app_ge in Hc, Hf by lia.
+    destruct fuel as [|fuel]; [cbn in Hc; discriminate|].
+    rewrite (agg_clean_step d dd u _ fuel Hd Hu) in Hc.
+    assert (Hlen1 : (1 <= length (agg_unit d (dd, u)))%nat).
+    { unfold agg_unit, put16. rewrite !app_length. cbn [length]. lia. }
+    rewrite app_length in Hf.
+    destruct (IH fuel (j - zlen (agg_unit d (dd, u))) Ht ltac:(lia) ltac:(lia) Hc) as [m Hm].
+    exists (S m). cbn [firstn map concat]. rewrite zlen_app. lia.
+Qed.
+
+Lemma zlen_put16 v : zlen (put16 v) = 2.
+Proof. reflexivity. Qed.
+Lemma zlen_opt16 d v : zlen (opt16 d v) = if d then 2 else 0.
+Proof. destruct d; reflexivity. Qed.
+
+(* every strict prefix of an aggregation packet that does not end at the boundary of one of its
+   units (where it is itself an aggregation packet of the first m further units) is refused *)
+Theorem agg_trunc_strict d layer tid donl first others k : wf_form (FAgg layer tid donl first others) ->
+  0 <= k < zlen (encode d (FAgg layer tid donl first others)) ->
+  (forall m, k <> zlen (encode d (FAgg layer tid donl first (firstn m others)))) ->
+  rejected (h265_unmarshal d (Some (take k (encode d (FAgg layer tid donl first others))))).
+Proof.
+  intros Hwf Hk Hnb.
+  destruct (Z_lt_ge_dec k (min_len d (FAgg layer tid donl first others))) as [Hlt|Hge].
+  { apply agg_trunc; [exact Hwf|lia]. }
+  pose proof Hwf as (Hl & Ht & Hd & Hfirst & Hne & Hall). cbn [encode min_len] in *.
+  destruct (phdr_fields 48 layer tid ltac:(lia) Hl Ht) as (Hf & Htype & Hrange).
+  destruct (put16_split _ Hrange) as (p0 & p1 & Hp & Hh).
+  pose proof (zlen_nonneg first) as Hf0.
+  destruct (put16_split (zlen first) ltac:(lia)) as (s0 & s1 & Hs & Hss).
+  set (rest := concat (map (agg_unit d) others)) in *.
+  rewrite <- (zlen_opt16 d donl) in Hge.
+  pose proof (zlen_nonneg (opt16 d donl)) as Ho. set (o := zlen (opt16 d donl)) in *.
+  remember (2 + o + 2 + zlen first) as base eqn:Hb.
+  assert (Hbase : base <= k).
+  { destruct others as [|x ot]; [contradiction|]. pose proof (zlen_nonneg (agg_unit d x)). lia. }
+  assert (Htot : zlen (put16 (phdr 48 layer tid) ++ opt16 d donl ++ put16 (zlen first) ++ first ++ rest) = base + zlen rest).
+  { rewrite !zlen_app, !zlen_put16. fold o. lia. }
+  rewrite Htot in Hk.
+  (* the cut falls into the further units *)
+  assert (Hcut : take k (put16 (phdr 48 layer tid) ++ opt16 d donl ++ put16 (zlen first) ++ first ++ rest)
+                 = put16 (phdr 48 layer tid) ++ opt16 d donl ++ put16 (zlen first) ++ first ++ take (k - base) rest).
+  { rewrite take_app_ge by (rewrite zlen_put16; lia). f_equal.
+    rewrite take_app_ge by (rewrite zlen_put16; fold o; lia). f_equal.
+    rewrite take_app_ge by (rewrite !zlen_put16; fold o; lia). f_equal.
+    rewrite take_app_ge by (rewrite !zlen_put16; fold o; lia). f_equal.
+    f_equal. rewrite !zlen_put16. fold o. lia. }
+  rewrite Hcut. set (X := take (k - base) rest).
+  assert (Hclean : agg_clean (S (length (first ++ X))) d X = false).
+  { destruct (agg_clean (S (length (first ++ X))) d X) eqn:E; [|reflexivity]. exfalso.
+    destruct (agg_clean_prefix d others (S (length (first ++ X))) (k - base) Hall ltac:(fold rest; lia)
+                ltac:(fold rest; fold X; rewrite app_length; lia) E) as [m Hm].
+    apply (Hnb m). rewrite !zlen_app, !zlen_put16. fold o. lia. }
+  rewrite Hp, Hs. unfold h265_unmarshal. cbn [app]. rewrite !zlen_cons.
+  pose proof (zlen_nonneg (opt16 d donl ++ s0 :: s1 :: first ++ X)).
+  replace (1 + (1 + zlen (opt16 d donl ++ s0 :: s1 :: first ++ X)) <=? 2) with false
+    by (symmetry; rewrite zlen_app, !zlen_cons; pose proof (zlen_nonneg (first ++ X)); fold o; lia).
+  rewrite Hh, Hf, Htype. change (48 =? 50) with false. change (48 =? 49) with false. change (48 =? 48) with true.
+  cbv iota.
+  assert (Hwalk : forall fd, rejected (
+            if zlen (first ++ X) <? Z.lor (Z.shiftl s0 8) s1 then Err EShort else
+            if negb (agg_clean (S (length (first ++ X))) d (drop (Z.lor (Z.shiftl s0 8) s1) (first ++ X))) then Err EShort else
+            match agg_others (S (length (first ++ X))) d (drop (Z.lor (Z.shiftl s0 8) s1) (first ++ X)) [] with
+            | [] => Err EShort
+            | _ :: _ => Ok (PAgg fd (take (Z.lor (Z.shiftl s0 8) s1) (first ++ X))
+                              (agg_others (S (length (first ++ X))) d (drop (Z.lor (Z.shiftl s0 8) s1) (first ++ X)) []))
+            end)).
+  { intros fd. rewrite Hss, zlen_app. pose proof (zlen_nonneg X).
+    kill_if (zlen first + zlen X <? zlen first) false. rewrite drop_app_exact, Hclean. eexists; reflexivity. }
+  clear Ho. subst o. destruct d; cbn [opt16 app].
+  - destruct (put16_split donl Hd) as (d0 & d1 & -> & Hdv). cbn [app]. apply Hwalk.
+  - apply Hwalk.
+Qed.
+
 Theorem parse_truncated : forall d f k, wf_form f -> 0 <= k < min_len d f ->
   exists e, h265_unmarshal d (Some (take k (encode d f))) = Err e.
 Proof.
@@ -225,11 +358,6 @@ Proof.
   - apply fu_trunc; assumption.
   - apply paci_trunc; assumption.
 Qed.
-
-Lemma zlen_put16 v : zlen (put16 v) = 2.
-Proof. reflexivity. Qed.
-Lemma zlen_opt16 d v : zlen (opt16 d v) = if d then 2 else 0.
-Proof. destruct d; reflexivity. Qed.
 
 (* the bound is tight: the whole payload has at least [min_len] bytes, and at [min_len] bytes and
    beyond the forms are accepted (C14_parse_forms for the whole payload) *)
